@@ -760,6 +760,52 @@ func c13Stats(cases []string) map[string]int {
 	return st
 }
 
+// c13Corpus: the inputs of the confirmed defects (F18 and the calendar/instant ties, fixed; F19 known),
+// every arrival order each.  The two `sortspec` lines are the known-finding witnesses.
+func c13Corpus() []string {
+	var out []string
+	rr := NewRand(13)
+	all := func(name string, keys []string) {
+		set := c13MakeSet(rr, keys)
+		set.values = strings.TrimSuffix(strings.Repeat("0,", len(keys)), ",")
+		var rec func(cur []int, used int)
+		rec = func(cur []int, used int) {
+			if len(cur) == len(keys) {
+				out = append(out, set.line("sort", name, c13IntsField(cur)))
+				return
+			}
+			for i := range keys {
+				if used&(1<<i) == 0 {
+					rec(append(append([]int{}, cur...), i), used|1<<i)
+				}
+			}
+		}
+		rec(nil, 0)
+		if c13SpecOK(name, keys) {
+			out = append(out, set.line("sortspec", name, c13IntsField(c13Perm(rr, len(keys)))))
+			out = append(out, set.line("agg", name, c13IntsField(c13Perm(rr, len(keys)))))
+		}
+		out = append(out, set.line("axioms", name, ""))
+	}
+	all("numeric", []string{"10", "1a", "2"})
+	all("numeric", []string{"1", "1.0"})
+	all("numeric", []string{"nan", "1", "2"})
+	all("numeric:desc", []string{"10", "1a", "2", "1.0", "1"})
+	all("contextual", []string{"tue", "tues"})
+	all("contextual", []string{"mon", "Mon", "MON"})
+	all("date", []string{"2022-01-02 10:00:00", "2022-01-02 10:00:00.0"})
+	all("contextual", []string{"wed", "abc", "00"})
+	all("contextual", []string{"mon", "fri", "abc"})
+	all("date", []string{"01/02/2022", "12/31/2021", "abc"})
+	w1 := c13MakeSet(rr, []string{"mon", "fri", "abc"})
+	w1.values = "0,0,0"
+	out = append(out, w1.line("sortspec", "contextual", "0,1,2"))
+	w2 := c13MakeSet(rr, []string{"01/02/2022", "12/31/2021", "abc"})
+	w2.values = "0,0,0"
+	out = append(out, w2.line("sortspec", "date", "0,1,2"))
+	return out
+}
+
 func init() {
-	Register("C13", &Prop{Gen: c13Gen, Run: c13Run, Stats: c13Stats})
+	Register("C13", &Prop{Gen: c13Gen, Run: c13Run, Stats: c13Stats, Corpus: c13Corpus()})
 }
